@@ -7,6 +7,8 @@ import Frrs.PathCodec
 import Frrs.Glob
 import Frrs.CliPath
 import Frrs.FileChange
+import Frrs.Replace
+import Frrs.Identity
 namespace Frrs.Ops
 open Frrs Frrs.Wire
 
@@ -46,6 +48,63 @@ def dispatch (op : String) (args : List String) : Option String :=
       let o := mkPathOpts (← decBool inv) (← decList paths) (← decList globs) (← decPairs renames)
         (← decBool hasRx) (← decList rxHits)
       pure (encOptBytes (handleFileChangeLine o (← decBytes line)))
+  -- message.rs
+  | "replace", [h, n, r] => do pure (encBytes (replaceAll (← decBytes h) (← decBytes n) (← decBytes r)))
+  | "litrules", [c] => do pure (encPairs (parseLiteralRules (← decBytes c)))
+  | "rxrules", [wg, c] => do
+      let rs := parseRegexRules (← decBool wg) (← decBytes c)
+      if rs.isEmpty then pure "-" else
+        pure (",".intercalate (rs.map fun r =>
+          (if r.kind == .regex then "r" else "g") ++ ":" ++ encBytes r.pattern ++ ":" ++ encBytes r.rep ++ ":" ++ encBool r.hasDollar))
+  | "rxrules2", [wg, c] => do   -- without the kind tag (the Rust side only sees the compiled pattern)
+      let rs := parseRegexRules (← decBool wg) (← decBytes c)
+      if rs.isEmpty then pure "-" else
+        pure (",".intercalate (rs.map fun r =>
+          encBytes r.pattern ++ ":" ++ encBytes r.rep ++ ":" ++ encBool r.hasDollar))
+  | "applylit", [c, d] => do pure (encBytes (applyLiteral (parseLiteralRules (← decBytes c)) (← decBytes d)))
+  | "expand", [tpl, caps] => do
+      -- caps: list of groups 0..; the token "none" inside the list marks a group that did not participate
+      let groups ← (if caps == "-" then some [] else (caps.splitOn ",").mapM fun t =>
+        if t == "none" then some none else (decBytes t).map some)
+      let f : Nat → Option Bytes := fun k => (groups[k]?).join
+      pure (encBytes (expandTemplate f (← decBytes tpl)))
+  -- identity / dates
+  | "utf8", [s] => do pure (encBool (utf8Valid (← decBytes s)))
+  | "trim", [s] => do pure (encBytes (trim (← decBytes s)))
+  | "timestamp", [shift, set, line] => do
+      let pI (t : String) : Option (Option Int) :=
+        if t == "none" then some none else (t.toInt?).map some
+      pure (encBytes (rewriteTimestampLine { shift := ← pI shift, set := ← pI set } (← decBytes line)))
+  | "authorrules", [c] => do
+      match parseAuthorRules (← decBytes c) with
+      | none => pure "err"
+      | some rs => pure (encPairs rs)
+  | "acreplace", [rules, t] => do pure (encBytes (authorRewrite (← decPairs rules) (← decBytes t)))
+  | "authorline", [rules, l] => do pure (encBytes (rewriteAuthorLine (← decPairs rules) (← decBytes l)))
+  | "emailline", [rules, l] => do pure (encBytes (rewriteEmailLine (← decPairs rules) (← decBytes l)))
+  | "mailmapline", [rules, l] => do
+      -- rules: list of old:newname:newemail
+      let rs ← (if rules == "-" then some [] else (rules.splitOn ",").mapM fun it =>
+        match it.splitOn ":" with
+        | [a, b, c] => do pure ({ oldEmail := ← decBytes a, newName := ← decBytes b, newEmail := ← decBytes c } : MailmapRule)
+        | _ => none)
+      pure (encBytes (mailmapRewriteLine rs (← decBytes l)))
+  | "authorline2", [c, l] => do
+      match parseAuthorRules (← decBytes c) with
+      | none => pure "err"
+      | some rs => pure (encBytes (rewriteAuthorLine rs (← decBytes l)))
+  | "emailline2", [c, l] => do
+      match parseAuthorRules (← decBytes c) with
+      | none => pure "err"
+      | some rs => pure (encBytes (rewriteEmailLine rs (← decBytes l)))
+  | "acreplace2", [c, t] => do
+      match parseAuthorRules (← decBytes c) with
+      | none => pure "err"
+      | some rs => pure (encBytes (authorRewrite rs (← decBytes t)))
+  | "mailmapline2", [c, l] => do
+      match parseMailmap (← decBytes c) with
+      | none => pure "err"
+      | some rs => pure (encBytes (mailmapRewriteLine rs (← decBytes l)))
   | _, _ => none
 
 end Frrs.Ops
